@@ -218,6 +218,8 @@ class Engine:
         import warnings
         warnings.simplefilter("ignore")
         self._rep_defaults = representation.Representation.__init__.__defaults__
+        from .core import library_guard
+        self.guard = library_guard()
 
     # ------------------------------------------------------------------ config
     def gen_config(self, rng, prop, tier):
@@ -246,6 +248,7 @@ class Engine:
         r = self.representation.Representation
         if r.__init__.__defaults__ != self._rep_defaults or r.__init__.__defaults__[1] != []:
             r.__init__.__defaults__ = (None, [], None, None, None, None, 'float64')
+        self.guard.restore()
         return World(cfg, prop)
 
     def close(self, world):
